@@ -15,6 +15,9 @@
    harness/c/uc_harness.c and driven with the same table.  Phases 1-2: the same programs with
    CRLF / CR line ends, a BOM, and backslash-newline inside every literal and identifier.
    gcc -std=gnu11 is the tie-break: a vector on which gcc disagrees with the spec is not judged.
+3. LitInit (c11_init.py): the string literal as one item of an initializer list - sequences of initializers
+   for one character array subobject (override: the terminator must land, 6.7.9p14/p19) and flat, brace-elided
+   lists for 13 aggregate shapes (which subobject the literal initialises, 6.7.9p20).
 """
 import json, os, re, sys, threading
 import vt
@@ -33,6 +36,9 @@ ORACLE_CHECK = bool(os.environ.get("VERIF_C11_ORACLE_CHECK"))
 # ------------------------------------------------------------------ rendering
 def render(i, c):
     """C text (bytes) of case i: one file-scope object + one function printing one line 'R i ...'."""
+    if c["kind"] == "strinit":        # a literal as one item of an initializer list (LitInit.tla)
+        import c11_init
+        return c11_init.render(i, c)
     s = bytes(c["src"])
     n = str(i).encode()
     if c["kind"] in ("int", "chr"):
@@ -89,6 +95,9 @@ def render(i, c):
 
 
 def expect(i, c):
+    if c["kind"] == "strinit":
+        import c11_init
+        return c11_init.expect(i, c)
     if c["kind"] in ("int", "chr"):
         return "R %d %s %d %d %s 1" % (i, c["val"], c["size"], c["neg"], c["val"])
     if c["kind"] in ("flt", "mid"):
@@ -467,8 +476,8 @@ def run(ctx):
     q = ctx.quick
     tree = ctx.build()
     ctx.phase("build done")
-    import c11_cp
-    outs = {k: os.path.join(ctx.scratch, k + ".ndjson") for k in ("int", "str", "cat", "utf", "flt", "mid", "seq")}
+    import c11_cp, c11_init
+    outs = {k: os.path.join(ctx.scratch, k + ".ndjson") for k in ("int", "str", "cat", "utf", "flt", "mid", "seq", "init")}
     jobs = [
         lambda: tlc_gen(ctx, "LitInt", "LitInt.cfg", outs["int"], "convert_pp_int's ladder (Level I) differs from 6.4.4.1 (Level A)", Emit=True),
         lambda: tlc_gen(ctx, "LitStr", "LitStr.cfg", outs["str"], "character constant / string literal design differs from 6.4.4.4 / 6.4.5",
@@ -486,7 +495,8 @@ def run(ctx):
     cat = lambda: tlc_gen(ctx, "LitStr", "LitStr.cfg", outs["cat"], "concatenation of adjacent string literals differs from 6.4.5p5",
                           Emit=True, Small=q, Fams='{"cat"}')
     more = c11_cp.tlc_jobs(ctx, outs["utf"])
-    jobs = [jobs[1], cat, jobs[0], more[0], jobs[3], jobs[2], more[3]] + jobs[4:] + [more[1], more[2]] + more[4:]    # generators first
+    ini = c11_init.tlc_jobs(ctx, outs["init"])
+    jobs = [jobs[1], cat, jobs[0], more[0], jobs[3], ini[0], jobs[2], more[3]] + jobs[4:] + [more[1], more[2]] + more[4:] + ini[1:]    # generators first
     errs = []
 
     def guarded(j):
@@ -539,6 +549,8 @@ def run(ctx):
     run_diag(ctx, tree, diags)
     run_headers(ctx, tree)
     ctx.phase("literal replay done")
+    c11_init.run_init(ctx, tree, outs["init"])
+    ctx.phase("initializer lists done")
     c11_cp.run_cp(ctx, tree, outs["utf"])
     ctx.phase("code points done")
     c11_cp.run_phases(ctx, tree, sel_i, sel_s)
@@ -548,12 +560,13 @@ def run(ctx):
         "not generated (implementation-defined or constraint violations): multi-character constants, character constants whose code point needs more than one element, escapes out of range of the element type, decimal constants without a signed type, differently prefixed adjacent literals, UCNs below 00A0 / in D800-DFFF / above 10FFFF, ill-formed UTF-8 in source text (decode_utf8 on ill-formed input is judged separately through the linked harness)",
         "Level A was validated against gcc 12 on the whole generated domain at development time; at check time gcc only discards vectors on which it disagrees with the spec",
         "character constants in #if are expected to have the value they have in expressions (6.10.1p4 leaves the match implementation-defined; gcc documents it and chibicc has one tokenizer for both)",
-        "long and long long are not distinguishable (chibicc has one 64-bit type): types are observed as sizeof + signedness"]
+        "long and long long are not distinguishable (chibicc has one 64-bit type): types are observed as sizeof + signedness",
+        "initializer lists (LitInit): an element that the overriding initializer does not itself provide is judged to be zero or exactly a value the specification says was discarded there - the latter is the open finding D35 of property C05 (parser never clears an Initializer subtree), counted in coverage.strinit_elements_holding_a_discarded_value_D35 and left to C05"]
     if ctx.oracle_disagreements or ORACLE_CHECK:
         print("NOTE C11: %d vector(s) on which gcc disagrees with the specification were not judged%s" % (
             ctx.oracle_disagreements, " (oracle check mode: gcc was the compiler under test)" if ORACLE_CHECK else ""))
     return ctx.finish(
-        rule="case = one literal (or one run of code points in one literal / one identifier set) written by LitInt/LitStr/LitUtf.tla, compiled by the tree's chibicc and compared on value, sizeof, signedness and object bytes, or one code-point row replayed on unicode.c, or one re-encoding (line ends, BOM, splice position) of a program of such literals; distinct = distinct source text per replay mode; non-trivial = integer magnitude > 1, every other case",
+        rule="case = one literal (or one run of code points in one literal / one identifier set) written by LitInt/LitStr/LitUtf.tla, compiled by the tree's chibicc and compared on value, sizeof, signedness and object bytes, or one code-point row replayed on unicode.c, or one re-encoding (line ends, BOM, splice position) of a program of such literals, or one initializer-list behaviour of LitInit.tla in one container (static + automatic object); distinct = distinct source text per replay mode; non-trivial = integer magnitude > 1, every other case",
         exhaustive=not q,
         extra=dict(int_cases=len(ints), chrstr_cases=len(strs), flt_cases=len(flts), flt_replayed=len(sel_f), mid_cases=len(mids), mid_replayed=len(sel_m), diag_cases=len(diags), int_replayed=len(sel_i), chrstr_replayed=len(sel_s)))
 
@@ -571,6 +584,9 @@ def replay(ctx, path):
         c11_cp.replay_uc(ctx, tree, c)
     elif c.get("kind") == "seq":
         run_sequences(ctx, tree, [dict(c["seq"], _cases=c["cases"])], [])
+    elif c.get("kind") in ("strinit", "strdiag"):
+        import c11_init
+        c11_init.replay(ctx, tree, c)
     elif c.get("kind") == "longfile":
         c11_cp.replay_long(ctx, tree, c)
     elif c.get("kind") == "diag":
